@@ -280,12 +280,20 @@ class C11(Check):
             plan["history"] = [{"pdu": p_, "max_retry": 0, "timeout": 0.3, "analyze": rng.random() < 0.3} for p_ in seq2]
             plan["outcomes"] = [rng.choice(["padded", "padded", "asis"]) for _ in range(2 * len(seq2) + 2)]
             plan["crash"] = None
+        # another process holds the database's write lock for a while (shorter than the handler's busy timeout, so sqlite's busy
+        # handler waits it out): rows must still arrive complete AND in transmission order (own stream of draws)
+        rng5 = rng_for(seed, "C11-db-busy", index)
+        plan["db_busy"] = []
+        if not plan["db_locked"] and not plan["db_locked_run_meta"] and not plan["state_race"] and rng5.random() < 0.2:
+            plan["db_busy"] = [[round(rng5.uniform(0.0, 1.5), 3), rng5.choice([0.03, 0.4, 2.5])] for _ in range(rng5.choice([1, 2]))]
+            plan["db_busy_at_end"] = rng5.choice([None, 0.3, 4.0])
         plan["backlog"] = 0
         if index % 400 == 200:
             # a long run against a database far slower than the ECU: more than a thousand rows are waiting in the writer queue
             # when the run is interrupted (every one of them belongs to a completed exchange)
             nb = rng.choice([1100, 1300, 1700])
             plan["backlog"] = nb
+            plan["db_busy"] = []
             plan["history"] = []
             plan["outcomes"] = ["asis"] * (2 * nb + 2)
             plan["tp"] = None
@@ -299,7 +307,7 @@ class C11(Check):
     def simplify(self, plan: dict[str, Any]) -> Any:
         import copy
 
-        for key, val in (("tp", None), ("crash", None), ("artifacts", False), ("segment", "whole"), ("db_lat", 0.0001)):
+        for key, val in (("tp", None), ("crash", None), ("artifacts", False), ("segment", "whole"), ("db_lat", 0.0001), ("db_busy", [])):
             if plan.get(key) != val:
                 p = copy.deepcopy(plan)
                 p[key] = val
@@ -351,6 +359,10 @@ class C11(Check):
 
         if locked or plan.get("db_locked_run_meta"):
             world.sql.fault = db_fault
+        for t0_, dur_ in plan.get("db_busy") or []:
+            world.sql.lock_windows.append((t0_, t0_ + dur_))
+        if plan.get("db_busy") and plan.get("db_busy_at_end"):
+            world.sql.lock_triggers.append({"prefix": "UPDATE run_meta SET end_time", "dur": plan["db_busy_at_end"]})
         world.install(capture=lambda r: "Could not log messages to database" in r.getMessage() or "Database worker died" in r.getMessage())
         # wire monitor at the transport seam, tagged with the calling task
         orig_w, orig_r = tbase.LinesTransportMixin.write, tbase.LinesTransportMixin.read
@@ -723,6 +735,8 @@ class C11(Check):
             bump(res["faults"], "crash_" + crash["kind"])
         if ins.get("meta_fired"):
             bump(res["faults"], "db_locked_on_run_meta_update")
+        if world.sql.lock_waits:
+            bump(res["faults"], "database_locked_by_another_process_within_the_busy_timeout", world.sql.lock_waits)
         if sig_t is not None:
             bump(res["probes"], "sigint_fired")
         if toggles:
